@@ -69,6 +69,17 @@ def enc_batch(b) -> bytes:
     return pre + post
 
 
+def enc_prepared(hdr, recs) -> bytes:
+    """what re-serialising an already complete batch must give: the header fields verbatim
+    (including batch_length and crc), records relative to the header's base offset/timestamp"""
+    post = struct.pack(">hiqqqhii", hdr["attributes"], hdr["last_offset_delta"], hdr["base_timestamp"], hdr["max_timestamp"],
+                       hdr["producer_id"], hdr["producer_epoch"], hdr["base_sequence"], len(recs))
+    for r in recs:
+        post += enc_record(r, hdr["base_timestamp"], hdr["base_offset"])
+    pre = struct.pack(">qiibI", hdr["base_offset"], hdr["batch_length"], hdr["partition_leader_epoch"], 2, hdr["crc"])
+    return pre + post
+
+
 def derive(nb):
     """the batch parameters the format prescribes for a new batch of these records"""
     recs = nb["records"]
